@@ -256,6 +256,10 @@ def convert_slots_to_new(slots, log=None):
                     i = ro['index']
                     o = ro['occupation']
                     cores.append(RO(index=i, occupation=o))
+            elif len(cores[0]) == 1:
+                # resource sets as written by `convert_slots_to_old`: `[[i], ...]`
+                cores = [RO(index=rs[0], occupation=1.0)
+                         for rs in slot['cores']]
             else:
                 cores = [RO(index=i, occupation=o)
                          for i,o in slot['cores']]
@@ -274,6 +278,9 @@ def convert_slots_to_new(slots, log=None):
                     i = ro['index']
                     o = ro['occupation']
                     gpus.append(RO(index=i, occupation=o))
+            elif len(gpus[0]) == 1:
+                gpus  = [RO(index=rs[0], occupation=1.0)
+                         for rs in slot['gpus']]
             else:
                 gpus  = [RO(index=i, occupation=o)
                          for i,o in slot['gpus']]
